@@ -455,24 +455,31 @@ def check_branch_rule(ctx):
 
 # --- interpolation clauses -------------------------------------------------------------------------
 
-def check_interpolation(ctx):
+def _interp_clauses(ctx, mk, sigx):
     ev = nt = 0
-    iso0 = mk_point(BASE, ctx.scale)
+    tag = '' if sigx.get('magnitude') == 'ordinary' else f" [stored numbers: {sigx['magnitude']}]"
+
+    def _vv(check, what, case, exp, obs, extra):
+        ex = dict(extra)
+        if sigx.get('magnitude') != 'ordinary':
+            ex['magnitude'] = 'scaled'
+        return _v(check, what + tag, case, exp, obs, ex)
+    iso0 = mk()
     p, l = iso0.data_raw['pressure'].values, iso0.data_raw['loading'].values
     for br, sl_ in (('ads', slice(0, 4)), ('des', slice(4, 6))):
         pb, lb = p[sl_], l[sl_]
         order = numpy.argsort(pb)
         pb, lb = pb[order], lb[order]
-        iso = mk_point(BASE, ctx.scale)
+        iso = mk()
         # knots
         for x, y in zip(pb, lb):
             o = core.call(iso.loading_at, float(x), branch=br)
             o2 = core.call(iso.pressure_at, float(y), branch=br)
             ev += 2; nt += 2
             if not o.ok or abs(float(o.value) - y) > 1e-12 * abs(y):
-                ctx.violate(_v('interp-knot', f'loading_at({x}, branch={br}) = {o.value if o.ok else o.brief()} but the measured point is {y}', {'p': x, 'branch': br}, y, o.value if o.ok else o.brief(), {'fn': 'loading_at'}))
+                ctx.violate(_vv('interp-knot', f'loading_at({x}, branch={br}) = {o.value if o.ok else o.brief()} but the measured point is {y}', {'p': x, 'branch': br}, y, o.value if o.ok else o.brief(), {'fn': 'loading_at'}))
             if not o2.ok or abs(float(o2.value) - x) > 1e-12 * abs(x):
-                ctx.violate(_v('interp-knot', f'pressure_at({y}, branch={br}) is not the measured pressure {x}', {'n': y, 'branch': br}, x, o2.value if o2.ok else o2.brief(), {'fn': 'pressure_at'}))
+                ctx.violate(_vv('interp-knot', f'pressure_at({y}, branch={br}) is not the measured pressure {x}', {'n': y, 'branch': br}, x, o2.value if o2.ok else o2.brief(), {'fn': 'pressure_at'}))
         # chords
         for i in range(len(pb) - 1):
             for f in (0.5, 0.25, 0.9):
@@ -482,30 +489,50 @@ def check_interpolation(ctx):
                 o2 = core.call(iso.pressure_at, y, branch=br)
                 ev += 2; nt += 2
                 if not o.ok or core.relerr(o.value, y) > 1e-12:
-                    ctx.violate(_v('interp-chord', f'loading_at({x}, branch={br}) is not on the straight line between neighbours', {'p': x}, y, o.value if o.ok else o.brief(), {'fn': 'loading_at'}))
+                    ctx.violate(_vv('interp-chord', f'loading_at({x}, branch={br}) is not on the straight line between neighbours', {'p': x}, y, o.value if o.ok else o.brief(), {'fn': 'loading_at'}))
                 if not o2.ok or core.relerr(o2.value, x) > 1e-12:
-                    ctx.violate(_v('interp-chord', f'pressure_at({y}, branch={br}) is not on the straight line between neighbours', {'n': y}, x, o2.value if o2.ok else o2.brief(), {'fn': 'pressure_at'}))
+                    ctx.violate(_vv('interp-chord', f'pressure_at({y}, branch={br}) is not on the straight line between neighbours', {'n': y}, x, o2.value if o2.ok else o2.brief(), {'fn': 'pressure_at'}))
         # outside
-        for x in (pb[0] * 0.5, pb[-1] * 1.5):
-            fresh = mk_point(BASE, ctx.scale)
+        for x in (pb[0] * 0.5, pb[0] * 0.98, pb[-1] * 1.02, pb[-1] * 1.5):
+            fresh = mk()
             o = core.call(fresh.loading_at, x, branch=br)
             ev += 1; nt += 1
             if o.ok:
-                ctx.violate(_v('interp-outside-not-refused', f'loading_at({x}, branch={br}) outside the measured range returned {o.value}', {'p': x}, 'refused', o.value, {'fn': 'loading_at'}))
+                ctx.violate(_vv('interp-outside-not-refused', f'loading_at({x}, branch={br}) outside the measured range returned {o.value}', {'p': x}, 'refused', o.value, {'fn': 'loading_at'}))
             for fill in (0.0, 7.5):
-                fresh = mk_point(BASE, ctx.scale)
+                fresh = mk()
                 o = core.call(fresh.loading_at, x, branch=br, interp_fill=fill)
                 ev += 1; nt += 1
                 if not o.ok or float(o.value) != fill:
-                    ctx.violate(_v('interp-fill', f'loading_at({x}, branch={br}, interp_fill={fill}) = {o.value if o.ok else o.brief()}', {'p': x}, fill, o.value if o.ok else o.brief(), {'fn': 'loading_at'}))
-        for y in (lb.min() * 0.5, lb.max() * 1.5):
-            fresh = mk_point(BASE, ctx.scale)
+                    ctx.violate(_vv('interp-fill', f'loading_at({x}, branch={br}, interp_fill={fill}) = {o.value if o.ok else o.brief()}', {'p': x}, fill, o.value if o.ok else o.brief(), {'fn': 'loading_at'}))
+        for y in (lb.min() * 0.5, lb.min() * 0.98, lb.max() * 1.02, lb.max() * 1.5):
+            fresh = mk()
             o = core.call(fresh.pressure_at, y, branch=br)
             ev += 1; nt += 1
             if o.ok:
-                ctx.violate(_v('interp-outside-not-refused', f'pressure_at({y}, branch={br}) outside the measured range returned {o.value}', {'n': y}, 'refused', o.value, {'fn': 'pressure_at'}))
+                ctx.violate(_vv('interp-outside-not-refused', f'pressure_at({y}, branch={br}) outside the measured range returned {o.value}', {'n': y}, 'refused', o.value, {'fn': 'pressure_at'}))
+    return ev, nt
+
+
+def check_interpolation(ctx):
+    ev = nt = 0
+    import pygaps
+    base_iso = mk_point(BASE, ctx.scale)
+
+    def mk_scaled(mp, ml):
+        """The same curve with the stored NUMBERS scaled (magnitudes as they occur in MPa, or kmol per mg: 1e-9 ... 1e6)."""
+        d = base_iso.data_raw.copy()
+        d['pressure'] = d['pressure'] * mp
+        d['loading'] = d['loading'] * ml
+        return pygaps.PointIsotherm(isotherm_data=d, pressure_key='pressure', loading_key='loading', **base_iso.to_dict())
+
+    for mp, ml in ((1.0, 1.0), (1e-9, 1.0), (1.0, 1e-9), (1e-9, 1e-9), (1e6, 1e6), (3e-7, 2e-8)):
+        e2, n2 = _interp_clauses(ctx, lambda: mk_scaled(mp, ml), {'magnitude': 'ordinary' if (mp, ml) == (1.0, 1.0) else f'p x {mp:g}, n x {ml:g}'})
+        ev += e2
+        nt += n2
     # the same clauses on ONE object over every ordered pair of interpolation settings (the cached interpolator must not leak)
     settings = [(k, f) for k in ('linear', 'cubic') for f in (None, 0.0, 'extrapolate')]
+    p, l = base_iso.data_raw['pressure'].values, base_iso.data_raw['loading'].values
     pa, la = p[:4], l[:4]
     inside_p, out_p = (pa[1] + pa[2]) / 2, pa[3] * 1.5
     inside_l, out_l = (la[1] + la[2]) / 2, la[3] * 1.5
